@@ -56,26 +56,25 @@ static unsigned int assemble_const(unsigned long constant,
 }
 
 /**
- * this function determines how the caller interprets an immediate between
- * 0x80000000 and 0xffffffff(64 bits when NASM mode is disabled) by including
- * or excluding an additional leading zero byte in the immediate given
- * @param instruc, immediate @param saved_imm, and instruction type @param type
+ * "mov r64, imm64" (b8+rd with REX.W) is the only form with an 8 byte immediate.
+ * It is selected for an immediate between 0x80000000 and 0xffffffff that has to
+ * stay zero extended; an additional leading zero byte makes the caller pad
+ * @param saved_imm of @param instruc to 8 bytes. When NASM mode narrowed the
+ * destination to its 32-bit register the 4 byte immediate is complete.
  * ex: NASM mode disabled "mov rax, 0x80000000" -> 48,b8,00,00,00,80,00,00,00,00
  * ex: NASM mode enabled "mov rax, 0x80000000" -> b8,00,00,00,80
  */
 static bool check_zero(struct instr *instruc, unsigned long saved_imm,
                        instr_type type) {
+  unsigned int opd0_mode = instruc->opd[0].reg & MODE_MASK;
+  if (type != DATA_TRANSFER || instruc->mem_disp ||
+      INSTR_TABLE[instruc->key].encode_operand != I)
+    return false;
+  if (opd0_mode != reg64 && opd0_mode != ext64)
+    return false;
   // check for signed 32bit overflow
-  if (IN_RANGE(saved_imm, NEG32BIT_CHECK, MAX_UNSIGNED_32BIT) &&
-      !instruc->reduced_imm && type != CONTROL_FLOW) {
-    // nasm immediate register handling disabled
-    if (!(instruc->assembly_opt & NASM))
-      return true;
-    // nasm immediate register handling disabled
-    if (type != DATA_TRANSFER)
-      return true;
-  }
-  return false;
+  return IN_RANGE(saved_imm, NEG32BIT_CHECK, MAX_UNSIGNED_32BIT) &&
+         !instruc->reduced_imm;
 }
 
 /**
